@@ -261,6 +261,13 @@ def pure_cli_lines():
     return rows
 
 
+class TranslatorCrash(Exception):
+    """the built code did not survive an operation of a regenerated grid"""
+    def __init__(self, grid, op, args, done, total, rc):
+        Exception.__init__(self, "grid %s: %d answers for %d operations (exit status %s) — died on %s %s" % (grid, done, total, rc, op, json.dumps(args)[:300]))
+        self.grid, self.op, self.args_, self.rc = grid, op, args, rc
+
+
 def generate_grid(info, t):
     """{path: text} — one generated module per property: Jose/Grid/<pid>.lean"""
     g = grid_ops(t)
@@ -277,7 +284,9 @@ def generate_grid(info, t):
         r = subprocess.run([info["hx"]], input=lines, stdout=subprocess.PIPE, text=True, env=dict(os.environ, ASAN_OPTIONS="detect_leaks=0"))
         res = r.stdout.splitlines()
         if len(res) != len(g[pid]):
-            raise SystemExit("translator-failed: grid %s: %d answers for %d operations" % (pid, len(res), len(g[pid])))
+            # the library (or the harness) died on operation number len(res) of this grid: a concrete input
+            o_, a_ = g[pid][len(res)]
+            raise TranslatorCrash(pid, o_, a_, len(res), len(g[pid]), r.returncode)
         keep = []
         for (o, a), x in zip(g[pid], res):
             rj = json.loads(x)
